@@ -91,5 +91,26 @@ CHECKS = {
           "never reuse a node that wake_all is still walking. Schedule-level exactly-once and run-time executor identity are not decided.",
   "note": "Trusted: clang 14 CFG; compiler-generated coroutine frames (coroutine bodies themselves are not analysed, only the awaiter/promise protocol functions).",
   "technique": "static analysis: use-after-release, resource-flow, exactly-once path counting, lock-dominance and null-correlated edge-guard rules over CFG facts"},
+ "C03": {
+  "text": "Decides on every instantiation of the fixed swiss table and the growing set/map: construction, size bump and {it,true} only on "
+          "the success edge of CAS(EMPTY->BUSY) taken with acquire, followed on every path by release stores of the same tag to the slot "
+          "and its mirror after the construction; an acquire fence between every SIMD group load and key comparison; a CAS loser does not "
+          "move its probe position before re-evaluating the loop condition; nothing constructed on failure paths and DUMMY ends the probe; "
+          "a growth table is CAS-published or deleted, exactly one, with release/acquire; traversal loads of next acquire; and lookup and "
+          "insertion advance their probe position identically (alpha-renamed sibling agreement - this is what catches an independently "
+          "seeded change that made find walk the groups in a different order). Readers between BUSY and the publishing store, or two "
+          "inserters at one empty slot, are never staged by the tests. Linearizability and SIMD matching are not decided.",
+  "note": "Trusted: clang 14 CFG; Group::match*/SIMD helpers opaque; std::hash.",
+  "technique": "static analysis: edge-guard, fence-between, exactly-once, resource-flow and sibling-agreement rules over CFG facts of template instantiations"},
+ "C18": {
+  "text": "Decides on the growing set/map: every loop over the table chain advances its node pointer along that node's own next; an iterator "
+          "handed out for traversal carries the successor of exactly the node whose table produced its position (flow-sensitive "
+          "reaching-definitions provenance); the default-constructed placeholder head is never counted through bucket_count() in an "
+          "element count and empty() is not answered from the head alone (all three violated by the original tree: finding F1, replayed "
+          "and fixed); rebuild paths iterate through begin()/end() and size the target from size(); user-provided move/swap members "
+          "transfer every field. None of the unit tests iterates, copies or reserves a set that grew from the default state. Equality "
+          "with std::unordered_set over histories is not decided.",
+  "note": "Trusted: clang 14 CFG; the fixed table's own iteration (find_first_non_empty) is not analysed.",
+  "technique": "static analysis: traversal-progress, flow-sensitive provenance, special-member completeness and who-sizes-from-what rules over CFG facts"},
 }
 NOT_APPLICABLE = {("C%02d" % i): PENDING for i in range(1, 21) if ("C%02d" % i) not in CHECKS}
